@@ -13,7 +13,7 @@ LEVEL_NOTE = ("N/D: propagator_cpmc_slow, propagator_cpmc_nn, propagator_cpmc_nn
               "cos in [-1,1] or NaN, exp not negative. lax.scan over sites: inductive step on the lane weight. Weights after reconfiguration: C07 (W/N). killed fraction: real arithmetic lemma.")
 TRUSTED_BASE = ["python ast + subset semantics", "z3 Float64 theory (bit-blasting), cvc5 for unknowns", "cone-of-influence slicing of hypotheses (sound for proofs; counter-models are re-checked)",
                 "sum lemma and log lemma (mathematics of doubles, stated)"]
-ASSUMPTIONS = ["dt in (1e-12, 1e3), 1 <= n_walkers <= 1e9, |e_estimate| <= 1e300", "'alive' means sum of weights >= 1e-290", "lane-wise code: one representative lane (C14 lane typing)"]
+ASSUMPTIONS = ["'.fin.*' obligations only: every real/imaginary part taken of a non-weight quantity and every double (op) unknown quantity is a finite double (the property's 'finite, non-zero overlaps' plus no overflow of the importance function)", "dt in (1e-12, 1e3), 1 <= n_walkers <= 1e9, |e_estimate| <= 1e300", "'alive' means sum of weights >= 1e-290", "lane-wise code: one representative lane (C14 lane typing)"]
 DROPPED = ["all non-weight arithmetic (havoc'ed)", "jit decorators"]
 
 
@@ -22,6 +22,7 @@ def tasks(tier):
     t = [(W, "step", dict(cls=c, meth="propagate")) for c in ("propagator_restricted", "propagator_unrestricted", "propagator_cpmc", "propagator_cpmc_continuous")]
     # slow / nearest-neighbour CPMC variants are NOT analysed (N/D): under the havoc over-approximation their obligations are not provable and
     # only yield not-decided entries; their one-body halves and tails repeat the patterns of propagator_cpmc
+    t += [(W, "step", dict(cls="propagator_cpmc_continuous", meth="propagate", finite_ratio=True))]      # provable under 'finite importance function'
     t += [(W, "step", dict(cls="propagator_cpmc", meth="propagate_one_body")), (W, "init_weights", {}), (W, "block_bookkeeping", {}), (W, "block_energy", {}), (W, "canary", {})]
     return t
 
@@ -41,6 +42,20 @@ def post(obs, tier, rep):
             if cls:
                 _replay_phaseless(o, cls)
             continue
+        if cls == "propagator_cpmc_continuous":
+            try:
+                if "node" not in cache:
+                    cache["node"] = native.cpmc_node_crossing(cls)
+                nb, nrec = cache["node"]
+                fam0 = "dead" if o["name"].endswith("dead") else "step"
+                if fam0 in nb or (".fin." in o["name"] and nb):
+                    o["replayed"] = True
+                    o["witness_class"] = "node-crossing-walker"
+                    o["witness"] = dict(model=o.get("witness"), native=dict(history="2 sites, trial [1;1]; walker 1 = up [1;-0.9], dn [1;1], fields (-2,+2): crosses the trial node, "
+                                                                            "importance function finite and negative", failing=nb.get(fam0) or next(iter(nb.values())), steps=nrec.get("steps")))
+                    continue
+            except Exception as e:   # noqa
+                o["witness"] = dict(model=o.get("witness"), native_error=repr(e)[:200])
         if cls not in cache:
             try:
                 cache[cls] = native.cpmc_violations(cls)
